@@ -8,6 +8,8 @@
 //! `Stream::exec`, so `replay` of a produced ops.txt reproduces impl.txt by construction.
 #![allow(unexpected_cfgs)]
 
+mod c12;
+mod c22;
 mod codec;
 mod guard;
 mod rng;
@@ -91,14 +93,12 @@ pub trait Stream {
     fn rule(&self) -> String;
 }
 
-fn make_stream(prop: &str) -> Result<Box<dyn Stream>, String> {
+fn make_stream(prop: &str, out: &Path) -> Result<Box<dyn Stream>, String> {
     match prop {
         "C20" => Ok(Box::new(codec::CodecStream::new(codec::Prop::C20))),
         "C21" => Ok(Box::new(codec::CodecStream::new(codec::Prop::C21))),
-        // ---- STUB: C12 not implemented in this harness yet (add a Stream impl and register it here)
-        "C12" => Err("property C12: stream unimplemented in harness_codec".to_string()),
-        // ---- STUB: C22 not implemented in this harness yet (add a Stream impl and register it here)
-        "C22" => Err("property C22: stream unimplemented in harness_codec".to_string()),
+        "C12" => Ok(Box::new(c12::C12Stream::new(out))),
+        "C22" => Ok(Box::new(c22::C22Stream::new())),
         other => Err(format!("unknown property {other}")),
     }
 }
@@ -285,7 +285,7 @@ fn corpus_lines(dir: &Path) -> Vec<String> {
 
 fn run() -> Result<(), String> {
     let args = parse_args();
-    let stream = match make_stream(&args.prop) {
+    let stream = match make_stream(&args.prop, &args.out) {
         Ok(s) => s,
         Err(e) => {
             eprintln!("harness_codec: {e}");
